@@ -58,8 +58,10 @@ cat "$WT/go.sum" /verif/harness/go.sum.extra | sort -u > "$ROOT/go.sum"
 need_race=0; need_plain=0
 for c in $CHECKS; do [ $c = C12 ] && need_race=1 || need_plain=1; done
 ( cd /verif/harness
-  [ $need_plain = 1 ] && go build -modfile="$ROOT/go.mod" -tags verif -o "$ROOT/bin/mon-plain" ./cmd/mon
-  [ $need_race = 1 ] && go build -modfile="$ROOT/go.mod" -race -tags verif -o "$ROOT/bin/mon-race" ./cmd/mon ) >"$ROOT/build.log" 2>&1 || { echo "BUILD-FAILED"; cat "$ROOT/build.log" | head -20; exit 2; }
+  rc=0
+  if [ $need_plain = 1 ]; then go build -modfile="$ROOT/go.mod" -tags verif -o "$ROOT/bin/mon-plain" ./cmd/mon || rc=1; fi
+  if [ $need_race = 1 ]; then go build -modfile="$ROOT/go.mod" -race -tags verif -o "$ROOT/bin/mon-race" ./cmd/mon || rc=1; fi
+  exit $rc ) >"$ROOT/build.log" 2>&1 || { echo "BUILD-FAILED"; cat "$ROOT/build.log" | head -20; exit 2; }
 for c in $CHECKS; do
   k=plain; [ $c = C12 ] && k=race
   out=$(cd "$ROOT" && VERIF_ROOT="$ROOT" "$ROOT/bin/mon-$k" -prop $c -tier quick 2>&1); report $c $? "$out"
